@@ -332,7 +332,7 @@ def _parse_options(buffer: Buffer, mode:CoAPOptionMode) -> Tuple[List[FieldDescr
         elif option_length == CoAPDefinitions.OPTION_LENGTH_EXTENDED_16BITS:
             # option_length_extended: 16 bits
             option_length_extended: Buffer = option_bytes[option_offset:option_offset+16]
-            option_length_extended_int: int = option_length_extended.value()
+            option_length_extended_int: int = option_length_extended.value() + 255 # length = 269 + extended, nibble is 14
             option_field_positions[CoAPFields.OPTION_LENGTH_EXTENDED] += 1
             option_offset += 16
 
